@@ -445,6 +445,10 @@ func storm(c *Ctx, idx int, p stormParams, props []string) {
 			n := identityCheck(r, "C02", evs, comps, "storm", scenario)
 			r.Obs("replies_identity_checked", n)
 		}
+		if pr == "C03" {
+			n := transparencyCheck(r, evs, "storm", scenario)
+			r.Obs("requests_compared", n)
+		}
 	}
 	// C04's predicate is trace-local and holds under concurrency too
 	traces := Traces(evs)
@@ -965,4 +969,73 @@ func killUnderFire(c *Ctx, idx int, nClients, rounds int) {
 	r.Obs("requests_sent", int(sent))
 	r.Obs("connection_kills_under_fire", rounds)
 	r.NonTrivial(fmt.Sprintf("kill-under-fire/cl%d/r%d/h%d", nClients, rounds, 1+idx%2))
+}
+
+// transparencyCheck is C03's request-side oracle on a storm history: every backend arrival of a token (first attempt,
+// retries and fail-overs alike) carries the version, flags, opcode and body bytes the client sent for that token.
+func transparencyCheck(r *mon.Result, evs []mon.Event, label string, scenario map[string]interface{}) int {
+	sent := map[string]mon.Event{}
+	for _, e := range evs {
+		if e.Src == "client" && e.K == "send" && e.Tok != "" {
+			sent[e.Tok] = e
+		}
+	}
+	// a request that was answered successfully is never sent again: a later arrival of its bytes is somebody else's request
+	// carrying the wrong body
+	for tok, as := range Traces(evs) {
+		for i, a := range as {
+			// (only when the connection that carried the successful answer stayed open: an answer written to a connection
+			// that died may never have reached the proxy, and re-sending an idempotent request is then legitimate)
+			if i > 0 && !as[i-1].Closed && (as[i-1].Outcome == "Rows" || as[i-1].Outcome == "Void" || as[i-1].Outcome == "Prepared") {
+				r.Violate(mon.Violation{Property: "C03", Signature: fmt.Sprintf("C03/request-altered/%s/%s/foreign-body-after-success", label, opName(a.Op)),
+					Detail:   fmt.Sprintf("the bytes of request %s reached host %d again (arrival #%d) after that request had already been answered %s: another request was forwarded with this request's body", tok, a.Host, i+1, as[i-1].Outcome),
+					Scenario: scenario, Witness: as})
+				break
+			}
+		}
+	}
+	n := 0
+	for _, e := range evs {
+		if e.Src != "backend" || e.K != "recv" || e.Tok == "" || e.Arrival == 0 {
+			continue
+		}
+		se, ok := sent[e.Tok]
+		if !ok {
+			continue
+		}
+		n++
+		what := ""
+		switch {
+		case e.Ver != se.Ver:
+			what = "version"
+		case e.Fl != se.Fl:
+			what = "flags"
+		case e.Op != se.Op:
+			what = "opcode"
+		case !bytesEqual(e.Body, se.Body):
+			what = "body"
+		}
+		if what != "" {
+			attempt := "first-attempt"
+			if e.Arrival > 1 {
+				attempt = "re-sent"
+			}
+			r.Violate(mon.Violation{Property: "C03", Signature: fmt.Sprintf("C03/request-altered/%s/%s/%s/%s", label, opName(se.Op), what, attempt),
+				Detail:   fmt.Sprintf("token %s: arrival #%d at host %d differs from what the client sent in its %s (client body %d bytes, backend body %d bytes, first difference at %d)", e.Tok, e.Arrival, e.Host, what, len(se.Body), len(e.Body), firstDiff(e.Body, se.Body)),
+				Scenario: scenario})
+		}
+	}
+	return n
+}
+
+func bytesEqual(a, b []byte) bool {
+	if len(a) != len(b) {
+		return false
+	}
+	for i := range a {
+		if a[i] != b[i] {
+			return false
+		}
+	}
+	return true
 }
